@@ -228,6 +228,9 @@ func (e *SpecEnv) eval(ex Expr) Val {
 	x := e.x
 	switch n := ex.(type) {
 	case EInt:
+		if n.S != "" {
+			return specInt(n.S)
+		}
 		return specInt(intLit(n.V))
 	case EBool:
 		if n.V {
